@@ -52,6 +52,24 @@ def build(chk):
                 res[0].meta['no_model'] = (fidx % 3 != 0)
                 res[0].kind = 'directed-xfer-msg'
                 recs.append(res[0])
+    # the session-parameter query, for IPv4 and IPv6 peers (address objects must not reach the D-Bus dictionary),
+    # before the session, established and after termination
+    for addrs in ((('10.0.0.1', 40000), ('10.0.0.2', 4556)),
+                  (('2001:db8::1', 40000, 0, 0), ('2001:db8::2', 4556, 0, 0)),
+                  (('::ffff:10.0.0.1', 40000, 0, 0), ('fe80::1', 4556, 0, 2))):
+        runner = TC.Runner(cfg_a=dict(_addrs=[list(x) for x in addrs]))
+        runner.apply(('start', 'A'))
+        runner.apply(('start', 'B'))
+        for e in 'AB':
+            runner.apply(('params', e))
+        TC.drain(runner)
+        runner.apply(('send', 'A', ('lit', b'abcdef')))
+        TC.drain(runner)
+        for e in 'AB':
+            runner.apply(('params', e))
+        runner.apply(('term', 'B', 0))
+        TC.drain(runner)
+        recs.append(TS.finish(runner, 'session-parameters', dict(no_model=True, addrs=[x[0] for x in addrs])))
     # extreme values reaching a signal: XFER_ACK with length 2^64-1, refusal of a queued transfer
     runner = TC.Runner()
     runner.apply(('start', 'A'))
@@ -92,5 +110,6 @@ if __name__ == '__main__':
     TS.run_check('C18', build, evaluate,
                  rule='cooperative two-endpoint schedules with pops (known and unknown ids), queue queries and terminate(); adversarial '
                       'frames (refusals, acks with arbitrary lengths up to 2^64-1) so that peer-chosen values reach the signals; every '
+                      'get_session_parameters() before/in a session with IPv4, IPv6 and scoped/mapped IPv6 peers; every '
                       'recorded signal emission and method return is checked against its declared signature by an independent '
                       'implementation of dbus-python\'s marshalling rules, queues against finished/popped events; non-trivial = at least 6 signals')
